@@ -16,6 +16,30 @@ func main() {
 	switch os.Args[1] {
 	case "check":
 		os.Exit(cmdCheck(os.Args[2:]))
+	case "inventory":
+		repo := "/repo"
+		if len(os.Args) > 2 {
+			repo = os.Args[2]
+		}
+		inv, err := scanInventory(repo, nil)
+		if err != nil {
+			fmt.Fprintln(os.Stderr, err)
+			os.Exit(2)
+		}
+		var ks []string
+		for k := range inv {
+			ks = append(ks, k)
+		}
+		sort.Strings(ks)
+		fmt.Println("# function inventory of the pinned tree (non-test, non-generated packages): helpers that are NOT listed here")
+		fmt.Println("# and are unexported are expanded in place before the rules run (flatten.go)")
+		for _, k := range ks {
+			fmt.Println(k)
+		}
+	case "explain":
+		os.Exit(cmdExplain(os.Args[2:]))
+	case "selftest":
+		os.Exit(cmdSelftest(os.Args[2:]))
 	case "dump":
 		fs := flag.NewFlagSet("dump", flag.ExitOnError)
 		repo := fs.String("repo", "/repo", "")
